@@ -76,6 +76,32 @@ def key_of(rec):
     return "hs=%s ans=%s err=%s flt=%s" % (",".join(sc["hs"]) or "-", sc.get("ans", "?"), r["err"], ",".join(flt) or "-")
 
 
+def validate(prop, wd, fml, traces):
+    """vlib.validate_traces for one formula, additionally returning the clauses each rejected line falsifies
+    (TraceGensign prints <<"WHY", line, {clause names}>> next to every <<"REJ", ..>>)."""
+    recs, owner = [], []
+    for ti, t in enumerate(traces):
+        for li, r in enumerate(t):
+            recs.append({k: v for k, v in r.items() if k not in ("exp", "info")})
+            owner.append((ti, li))
+    vlib.write_ndjson(os.path.join(wd, "trace.ndjson"), recs)
+    with open(os.path.join(wd, "Trace_run.cfg"), "w") as f:
+        f.write(TRACE_CFG + "\nACTION_CONSTRAINT Rep%s\nPOSTCONDITION TraceAccepted\nCHECK_DEADLOCK FALSE\n" % fml[1:])
+    r = vlib.tlc(wd, "TraceGensign.tla", "Trace_run.cfg", workers=1, timeout=3000)
+    if r.violated or r.error or "Model checking completed. No error" not in r.stdout:
+        raise NoVerdict("trace validation did not complete (the recorded file was not consumed to the end or TLC failed): %s\n%s"
+                        % (r.violated or "", (r.error or r.stdout[-3000:])))
+    why = {}
+    for m in re.finditer(r'^<<"WHY", (\d+), \{(.*)\}>>', r.stdout, re.M):
+        why[int(m.group(1))] = sorted(x.strip().strip('"') for x in m.group(2).split(",") if x.strip())
+    rejected = []
+    for m in re.finditer(r'^<<"REJ", "(\w+)", (\d+)>>', r.stdout, re.M):
+        if m.group(1) == fml:
+            l = int(m.group(2))
+            rejected.append(owner[l - 1] + (why.get(l, ["?"]),))
+    return rejected, {"events": len(recs), "wall": r.wall}
+
+
 def judge(prop, verdict, traces, label):
     """TLC validates the recorded traces; rejected steps are violations of prop."""
     ts = [list(t) for t in traces]
@@ -95,18 +121,18 @@ def judge(prop, verdict, traces, label):
         if prop == "C01":
             chunk[-1] = chunk[-1] + [{"ev": "step", "tid": "stat", "e": {"op": "stat"}}]
         twd = vlib.workdir(prop, "tv_%s_%d" % (label, ci))
-        rejected, st1 = vlib.validate_traces(prop, twd, "TraceGensign.tla", TRACE_CFG, [fml], chunk)
+        rejected, st1 = validate(prop, twd, fml, chunk)
         st["wall"] += st1["wall"]
         st["events"] += st1["events"]
-        for (ti, li) in rejected[fml]:
+        for (ti, li, why) in rejected:
             rec = chunk[ti][li]
             if rec["e"]["op"] == "run":
                 payload = chunk[ti]
             else:   # the batch statistics: replayed by recording a fresh batch with the same seed
                 payload = [{"ev": "reset", "tid": "stat", "post": {"ag": []}, "info": {"stat": True, "nrand": 64, "seed": vlib.seed()}}]
             rp = vlib.save_replay(prop, "%s_%s.ndjson" % (label, payload[0]["tid"]), payload) if len(verdict.violations) < 25 else "(not saved)"
-            verdict.violation(key_of(rec), "run %d of case %s is rejected by %s_Run: %s" %
-                              (li, chunk[ti][0]["tid"], prop, json.dumps({"sc": rec["e"].get("sc"), "r": rec["e"].get("r")})[:1500]), rp)
+            verdict.violation(key_of(rec) + " clause=" + "+".join(why), "run %d of case %s falsifies clause(s) %s of %s_Run: %s" %
+                              (li, chunk[ti][0]["tid"], "+".join(why), prop, json.dumps({"sc": rec["e"].get("sc"), "r": rec["e"].get("r")})[:1500]), rp)
     return sum(len(t) - 1 for t in traces), st
 
 
